@@ -103,14 +103,14 @@ Proof. apply fold_sstep_wf. repeat split; reflexivity. Qed.
 
 Definition M (s : state) : Prop := st_fail s = None /\ st_store s = st_facts s.
 
-Lemma M_amb s a : M s -> M (set_amb s a).
+Lemma M_pending s (a : list string) : M s -> M (set_pending s a).
 Proof. unfold M. cbn. auto. Qed.
 
 Lemma M_head s id : M s -> M (fst (rem_head s id)).
 Proof.
   intros (Hf & Hm). unfold rem_head. destruct (st_kind s) eqn:Hk.
   - destruct (alookup id (st_facts s)) as [fact|] eqn:El; [|split; assumption].
-    destruct (idx_drop_fields s id fact) as (F1 & F2 & F3 & F4 & F5 & F6 & F7).
+    destruct (idx_drop_fields s id fact) as (F1 & F2 & F3 & F4 & F5 & F6 & F7 & F8).
     pose proof (facts_idx_drop s id fact) as F0.
     unfold store_call. rewrite F5, Hf. cbn [fst]. unfold M.
     cbn [st_fail st_store st_facts set_store]. rewrite ?F0, ?F2, ?F5, ?Hf, Hm. split; auto.
@@ -153,10 +153,10 @@ Lemma sstep_M s o :
 Proof.
   destruct o as [op now]. unfold sstep. destruct op; intros Hh.
   - apply st_add_M. exact Hh.
-  - apply (st_Rem_inv M M_amb M_head).
-  - apply (st_get_inv M M_amb M_head).
-  - apply (st_search_inv M M_amb M_head).
-  - apply (st_find_rules_inv M M_amb M_head).
+  - apply (st_Rem_inv M M_pending M_head).
+  - apply (st_get_inv M M_pending M_head).
+  - apply (st_search_inv M M_pending M_head).
+  - apply (st_find_rules_inv M M_pending M_head).
   - apply st_clear_M.
 Qed.
 
